@@ -77,6 +77,11 @@ check("C05", "exploration",
   "Accepted events are taken from receipts (acceptance itself is C02/C04's job); per-child states are read from the transaction manager's stored record because GetStatus(child) answers with the global state; n <= 5.",
   "runtime monitoring: per-block group-state and notification-coverage oracle over generated child-event orders", "DESIGN.md §5 C05")
 
+check("C15", "exploration",
+  "Worlds with 4-7 weight-2 admins plus candidate weight-1 admins and one of six admitted strategy expressions; 60 governance steps per case (submissions of service/appchain/role proposals incl. several on one object, approve / reject / garbage / empty votes by admins, candidates, outsiders, chain admins, on open and finished proposals, withdrawals). After every step all proposals are read back: eligibility decides each Vote receipt and a refused vote leaves the proposal byte-identical; tallies == ballots from the electorate frozen at creation; approval by tally only with the recorded expression true; rejection by tally only when approval is unreachable under both readings; special proposals only with a weight-2 ballot; concluded proposals byte-identical ever after; governed objects change only in blocks with a governance event on them.",
+  "govaluate is the trusted expression evaluator; admins with a pending lifecycle operation are not judged (the statement does not say whether they are available); a refused legitimate vote is an observation, not a violation (only-if statement).",
+  "runtime monitoring: per-step proposal read-back checked by an eligibility / tally / finality oracle", "DESIGN.md §5 C15")
+
 ALL = [f"C{i:02d}" for i in range(1, 21)]
 REASON_PENDING = "check not built yet in this round; see DESIGN.md §5 for the planned monitor (no claim is made until the check runs clean on the unchanged tree)"
 
